@@ -70,6 +70,7 @@ type bridgeGen struct {
 	cbDep   *depInfo // a deposit placed in a coinbase transaction
 	netName string
 	mode    string
+	clean   bool // no execution-layer request that makes the block message fail
 	nkey    int
 }
 
@@ -486,17 +487,17 @@ func (g *bridgeGen) plan(mode string) (*BlockPlan, error) {
 		}
 	}
 	pickWd := func() int64 {
-		if len(st.Wd) == 0 || rare(15) {
+		if len(st.Wd) == 0 || (!g.clean && rare(15)) {
 			return int64(900 + r.Intn(5))
 		}
 		return st.Wd[r.Intn(len(st.Wd))].ID
 	}
-	if rare(6) {
+	if rare(6) && (!g.clean || len(st.Wd) > 0) {
 		id, price := pickWd(), uint64(1+r.Intn(60))
 		br.ReplaceByFees = append(br.ReplaceByFees, &goattypes.ReplaceByFeeRequest{Id: uint64(id), TxPrice: price})
 		rbfs = append(rbfs, Ev{"id": id, "price": int64(price)})
 	}
-	if rare(5) {
+	if rare(5) && (!g.clean || len(st.Wd) > 0) {
 		id := pickWd()
 		br.Cancel1s = append(br.Cancel1s, &goattypes.Cancel1Request{Id: uint64(id)})
 		cancels = append(cancels, id)
